@@ -1,6 +1,6 @@
 (* C05 — tree_map family calls the function once per leaf, in order, on aligned arguments. *)
-From OptreeModel Require Import Base Tree Flatten Unflatten Spec Ops Walk.
-From OptreeProofs Require Import OpsProofs WalkProofs Replace MapLaws.
+From OptreeModel Require Import Base Tree Flatten Unflatten Spec Construct Ops Walk.
+From OptreeProofs Require Import OpsProofs WalkProofs Replace MapLaws Subst BroadcastProofs.
 
 (* f is called exactly on the rows (leaf_i(t), sub_i(rest_1), ...): once per leaf, in flatten
    order, where sub_i(rest) is the i-th element flatten_up_to returns (the subtree at the i-th leaf's
@@ -86,3 +86,17 @@ Theorem C05_map_compose :
     tree_map c (lift f) t' [] = tree_map c (lift (fun x => f (g x))) t [].
 Proof. exact map_compose. Qed.
 Print Assumptions C05_map_compose.
+
+(* tree_map with a TREE-valued function: the result is the tree's treespec unflattened with the
+   function's results; flattening it gives the concatenation of the leaves of f(leaf_i), and its
+   treespec is the original with every leaf replaced by the treespec of f(leaf_i) *)
+Theorem C05_map_tree_valued :
+  forall c f t ls sp rs f2,
+    c_pred c = None -> wf_obj t = true -> flatten c t = Ok (ls, sp) ->
+    (forall x, wf_obj (f x) = true) ->
+    Forall2 (fun x r => tflat c f2 (f x) = Ok r) ls rs ->
+    exists o' tt t' b, tree_map c (lift f) t [] = Ok o' /\ wf_obj o' = true /\ decode (trav sp) = Some tt /\
+      Subst tt (map r_t rs) t' /\
+      tflat c (S (c_limit c) + f2) o' = Ok (concat (map r_l rs), t', b || existsb r_b rs).
+Proof. exact map_tree_valued. Qed.
+Print Assumptions C05_map_tree_valued.
